@@ -146,44 +146,77 @@ def check_ctrldep(ck: Checker, f: Func, m: Model, *, legacy: bool = False, rule:
         ck.holds(rule, f, m.loop, what, evaluations=len(rows), atoms=sorted(keys))
 
 
+def _closure_env(fn: ast.FunctionDef, exact: bool) -> dict[str, ast.FunctionDef]:
+    """Nested function definitions in force at the end of gather's top level when exact_type has the given value."""
+    env: dict[str, ast.FunctionDef] = {}
+
+    def block(ss: list[ast.stmt]) -> None:
+        for st in ss:
+            if isinstance(st, ast.FunctionDef):
+                env[st.name] = st
+            elif isinstance(st, ast.If):
+                try:
+                    v = Evaluator({"exact_type": exact}).ev(st.test)
+                except NeedAtom:
+                    if any(isinstance(x, ast.FunctionDef) for x in walk_body(st.body + st.orelse)):
+                        raise Unsupported("gather: a filter function is defined under a condition other than exact_type", st)
+                    continue
+                block(st.body if v else st.orelse)
+    block(fn.body)
+    return env
+
+
+def _filter_table(fdef: ast.FunctionDef, env: dict[str, ast.FunctionDef]) -> list[tuple[dict, Any, Any]]:
+    """Decision table of a filter closure; calls of sibling closures are evaluated in place (argument substitution)."""
+    from ..dtree import bool_function
+    from ..normalize import _Subst
+    import copy
+
+    def hook(c: ast.Call, assign: dict) -> object:
+        if isinstance(c.func, ast.Name) and c.func.id in env and not c.keywords:
+            callee = env[c.func.id]
+            params = [a.arg for a in callee.args.args]
+            if len(params) != len(c.args) or callee is fdef:
+                return NotImplemented
+            body = [_Subst(dict(zip(params, c.args))).visit(copy.deepcopy(st)) for st in callee.body]
+            rows = bool_function(body, preset=dict(assign), call_hook=hook)
+            vals = {bool(v) for _, v, lf in rows}
+            if any(lf.outcome != "return" for _, _, lf in rows):
+                raise Unsupported(f"gather: closure {callee.name} does not return on every path", callee)
+            if len(vals) == 1:
+                return vals.pop()
+            for a_, _, _ in rows:
+                for k in a_:
+                    if k not in assign:
+                        raise NeedAtom(k, c)
+            raise Unsupported(f"gather: closure {callee.name} undecided", callee)
+        return NotImplemented
+
+    return bool_function(fdef.body, call_hook=hook)
+
+
 def check_gather(ck: Checker, f: Func, *, legacy: bool = False, rule: str = "R-GATHER") -> None:
     fn = f.node
-    elem = "obj" if legacy else None
-    defs: dict[bool, ast.FunctionDef] = {}
-    for st in fn.body:
-        if isinstance(st, ast.If):
-            try:
-                t_true = Evaluator({"exact_type": True}).ev(st.test)
-                t_false = Evaluator({"exact_type": False}).ev(st.test)
-            except NeedAtom:
-                continue
-            if bool(t_true) == bool(t_false):
-                continue
-            for branch, val in ((st.body, True), (st.orelse, False)):
-                d = [x for x in branch if isinstance(x, ast.FunctionDef)]
-                if len(d) == 1:
-                    defs[True if (val == bool(t_true)) else False] = d[0]
-    if set(defs) != {True, False}:
-        raise Unsupported("gather: cannot find the two filter functions selected by exact_type", fn)
-    names = {d.name for d in defs.values()}
-    if len(names) != 1:
-        raise Unsupported("gather: the two filter functions have different names", fn)
-    fname = names.pop()
-    # class tuple normalisation
+    # the stream: one loop over self.dfs(..., filter=<closure>)
+    loops = [s for s in fn.body if isinstance(s, ast.For)]
+    dcalls = [c for c in walk_body(fn.body) if isinstance(c, ast.Call) and isinstance(c.func, ast.Attribute) and c.func.attr == "dfs" and norm(c.func.value) == "self"]
+    if len(dcalls) != 1 or kw(dcalls[0], "filter") is None or not isinstance(kw(dcalls[0], "filter"), ast.Name):
+        raise Unsupported("gather: not a single self.dfs(..., filter=<local function>) call", fn)
+    fname = kw(dcalls[0], "filter").id  # type: ignore[union-attr]
     clsvar = None
-    for exact, d in defs.items():
+    for exact in (True, False):
+        env = _closure_env(fn, exact)
+        d = env.get(fname)
+        if d is None:
+            raise Unsupported(f"gather: filter function {fname} not found for exact_type={exact}", fn)
         p = d.args.args[0].arg
-        rets = [s for s in d.body if isinstance(s, ast.Return)]
-        if len(rets) != 1 or len([s for s in d.body if not (isinstance(s, ast.Expr) and isinstance(s.value, ast.Constant))]) != 1:
-            raise Unsupported("gather filter function is not a single return", d)
-        e = rets[0].value
         node_expr = p if legacy else f"{p}.node"
-        atoms = discover_atoms(e)
-        type_atoms = [a for a in atoms if a.startswith(("isinstance(", "in(type(", "in(" + node_expr))]
+        what = f"gather(exact_type={exact}): filter = " + ("type(node) in classes" if exact else "isinstance(node, classes)") + " and (extra_filter is None or extra_filter(info))"
+        rows = _filter_table(d, env)
+        atoms = sorted({k for a_, _, _ in rows for k in a_})
         inst_key = next((a for a in atoms if a.startswith(f"isinstance({node_expr},")), None)
         exact_key = next((a for a in atoms if a.startswith(f"in(type({node_expr}),")), None)
         tkey = exact_key if exact else inst_key
-        what = f"gather(exact_type={exact}): filter = " + ("type(node) in classes" if exact else "isinstance(node, classes)") + " and (extra_filter is None or extra_filter(info))"
         if tkey is None:
             ck.violation(rule, f, d, what, construct=f"gather(exact_type={exact}): type test atoms {atoms}")
             continue
@@ -194,24 +227,59 @@ def check_gather(ck: Checker, f: Func, *, legacy: bool = False, rule: str = "R-G
         if other:
             ck.violation(rule, f, d, what, construct=f"gather(exact_type={exact}): filter depends on {sorted(other)}")
             continue
-        rows = truth_table(e, {tkey: (True, False), xf_none: (True, False), xf_call: (True, False)})
-        bad = [a for a, v in rows if bool(v) != (a[tkey] and (a[xf_none] or a[xf_call]))]
+        bad = []
+        for a_, v, lf in rows:
+            if lf.outcome != "return":
+                bad.append((a_, lf.outcome))
+                continue
+            if tkey not in a_:
+                bad.append((a_, "decided without the type test"))
+            elif not a_[tkey]:
+                exp = False
+            elif xf_none not in a_:
+                bad.append((a_, "decided without looking at extra_filter"))
+                continue
+            elif a_[xf_none]:
+                exp = True
+            elif xf_call not in a_:
+                bad.append((a_, "extra_filter not consulted"))
+                continue
+            else:
+                exp = a_[xf_call]
+            if tkey in a_ and bool(v) != bool(exp):
+                bad.append((a_, v))
         if bad:
-            ck.violation(rule, f, d, what, evaluations=len(rows), construct=f"gather(exact_type={exact}): filter formula wrong on {len(bad)} rows", rows=bad[:3])
+            ck.violation(rule, f, d, what, evaluations=len(rows), construct=f"gather(exact_type={exact}): filter formula wrong on {len(bad)} rows", rows=[str(b) for b in bad[:3]])
         else:
             ck.holds(rule, f, d, what, evaluations=len(rows))
     # obj_classes normalisation
     what = "gather: a single class is wrapped into a tuple, a tuple is used as is"
-    ok = False
-    for st in fn.body:
-        if isinstance(st, ast.If) and norm(st.test) in ("not isinstance(obj_class, tuple)", "isinstance(obj_class, tuple)"):
-            pos = st.body if norm(st.test).startswith("not") else st.orelse
-            neg = st.orelse if norm(st.test).startswith("not") else st.body
-            if len(pos) == 1 and len(neg) == 1 and isinstance(pos[0], ast.Assign) and isinstance(neg[0], ast.Assign) \
-                    and norm(pos[0].targets[0]) == clsvar == norm(neg[0].targets[0]) \
-                    and norm(pos[0].value) == "(obj_class,)" and norm(neg[0].value) == "obj_class":
-                ok = True
-    (ck.holds if ok else ck.violation)(rule, f, fn, what, **({} if ok else {"construct": "gather: class tuple normalisation not recognised or wrong"}))
+    clsparam = fn.args.args[1].arg
+    if clsvar is None:
+        raise Unsupported("gather: class collection variable not identified", fn)
+    from ..dtree import decision_tree
+    head = [st for st in fn.body if st.lineno < dcalls[0].lineno and not isinstance(st, (ast.For, ast.FunctionDef))]
+    k_tup = f"isinstance({clsparam}, tuple)"
+    leaves = decision_tree(head, preset={"exact_type": True}) + decision_tree(head, preset={"exact_type": False})
+    bad2 = None
+    for lf in leaves:
+        stores = [st for st in lf.resolved()[0] if isinstance(st, (ast.Assign, ast.AnnAssign)) and getattr(st, "value", None) is not None
+                  and norm(st.targets[0] if isinstance(st, ast.Assign) else st.target) == clsvar]
+        val = norm(stores[-1].value) if stores else None  # type: ignore[arg-type]
+        if lf.outcome != "fall":
+            continue
+        if set(lf.assign) - {k_tup, "exact_type"}:
+            raise Unsupported(f"gather: class normalisation decides on {sorted(lf.assign)}", fn)
+        if k_tup not in lf.assign:
+            bad2 = f"{clsvar} is {val} without testing whether {clsparam} is a tuple"
+        elif lf.assign[k_tup] and val not in (clsparam, f"tuple({clsparam})"):
+            bad2 = f"tuple of classes: {clsvar} is {val}"
+        elif not lf.assign[k_tup] and val != f"({clsparam},)":
+            bad2 = f"single class: {clsvar} is {val}"
+    if bad2:
+        ck.violation(rule, f, fn, what, construct=f"gather: class tuple normalisation wrong: {bad2}")
+    else:
+        ck.holds(rule, f, fn, what, evaluations=len(leaves))
     # delegation
     loops = [s for s in fn.body if isinstance(s, ast.For)]
     what = "gather delegates to dfs(prune=prune, filter=<built filter>, bottom_up=False) and yields the node of every record"
